@@ -453,13 +453,13 @@ def show(v, limit=160):
 
 # ------------------------------------------------------------------ the universe
 ALPHA = ['"', "[", "]", ":", ";", " ", "\n", "0", "c", "a"]
-EXTRA_CHARS = ["{", "}", "-", ".", "e", "(", ")", "\t", "\\", "'", "é", "€", "\U0001F600", " ", "٣", "²", " ", "\x00", "\x7f"]
+EXTRA_CHARS = ["{", "}", "-", ".", "e", "(", ")", "\t", "\\", "'", "\u00e9", "\u20ac", "\U0001F600", "\u00a0", "\u0663", "\u00b2", "\u2003", "\x00", "\x7f"]
 INTS_INNER = [0, 1, -1, 7, -42, 10, 99, 100, 1000000, 2 ** 31 - 1, -2 ** 31, 2 ** 53 + 1, -(2 ** 53) - 1, 2 ** 63 - 1, -2 ** 63]
 INTS_TOP = [2 ** 63, 2 ** 64, 10 ** 30, -10 ** 30, -2 ** 63 - 1]
 REALS = [0.0, -0.0, 1.0, -1.0, -1.5, 2.5, 0.1, 1e100, -1e100, 1e-7, 1.5e-7, -2.5e-10, 1e16, 1e22, 1.2345678912345e+25, 123456789.123,
          5e-324, 1.7976931348623157e308, -1.7976931348623157e308, 2.2250738585072014e-308, 1 / 3, 1e15, 1e-5, 0.0001, 9007199254740993.0,
          1e21, 123456.789e3, 4.35, 2.0 ** 70, 3.141592653589793]
-SYMS = ["a", "x", "y", "foo", "a.b", ".f", "a1", "Z9", ".sys.cin", "inf", "nan", "e", "c0c", "été", "x٣"]
+SYMS = ["a", "x", "y", "foo", "a.b", ".f", "a1", "Z9", ".sys.cin", "inf", "nan", "e", "c0c", "\u00e9t\u00e9", "x\u0663"]
 
 
 def strings_upto(n):
